@@ -160,7 +160,57 @@ def state(T):
     return [per, pairs, classes]
 
 
+def slots_of(o):
+    names = []
+    for c in type(o).__mro__:
+        names += list(getattr(c, '__slots__', []))
+    return names + ['no_such_attribute']
+
+
+def run_values(a):
+    """engine 902: CBlock over MUTABLE transactions, header, witness objects"""
+    from bitcoin.core import CBlock, CTxWitness, CTxInWitness, Hash
+    from bitcoin.core.script import CScriptWitness
+    h, txs, z = a
+    mtxs = [tx_from_val(t, mutable=True) for t in txs]
+    blk = CBlock(h[0], h[1], b'\x00' * 32, h[3], h[4], h[5], vtx=mtxs)
+    s0, h0, p0 = blk.serialize(), blk.GetHash(), hash(blk)
+    for m in mtxs:                       # later edits of the transactions the block was built from
+        m.nVersion = z
+        for i in m.vin:
+            i.nSequence = 5
+            i.prevout.n = 6
+        for o in m.vout:
+            o.nValue = 7
+        m.vin.append(CMutableTxIn())
+    s1, h1 = blk.serialize(), blk.GetHash()
+    objs = [blk, blk.get_header(), CTxWitness((CTxInWitness(CScriptWitness((b'a',))),)),
+            CTxInWitness(CScriptWitness((b'a',))), CScriptWitness((b'a', b''))]
+    objs += [t.wit for t in blk.vtx] + [w for t in blk.vtx for w in t.wit.vtxinwit]
+    bad_set = bad_del = 0
+    for o in objs:
+        g0 = o.GetHash()
+        for name in slots_of(o):
+            try:
+                setattr(o, name, 0)
+                bad_set += 1
+            except AttributeError:
+                pass
+            try:
+                delattr(o, name)
+                bad_del += 1
+            except AttributeError:
+                pass
+        ref = Hash(o.serialize()[:80]) if isinstance(o, CBlock) else Hash(o.serialize())
+        if not (o.GetHash() == g0 == ref and hash(o) == hash(o.serialize())):
+            bad_set += 1000
+    return [1 if s0 == s1 else 0, 1 if h0 == h1 == Hash(s1[:80]) else 0, 1 if hash(blk) == p0 == hash(s1) else 0,
+            bad_set, bad_del]
+
+
 def run(op, a):
+    if op == 2:
+        return run_values(a)
     if op != 1:
         raise ValueError('op')
     T = [tx_from_val(t, mutable=bool(m)) for m, t in a[0]]
